@@ -7,7 +7,7 @@ use crate::props::c07::T;
 use crate::props::c09::text_time;
 use crate::refmodel::inst::Ndt;
 use crate::refmodel::{cal, rfc3339};
-use crate::{conv, ensure_eq};
+use crate::{conv, ensure, ensure_eq};
 use chrono::{DateTime, FixedOffset, SecondsFormat, TimeZone};
 use proptest::prelude::*;
 use serde::{Deserialize, Serialize};
@@ -88,6 +88,11 @@ impl SubCheck for Writer {
         ensure_eq!(s, expected_3339(c.day, c.t, c.off, c.secform, c.use_z), "to_rfc3339_opts({:?}, {})", FORMS[c.secform as usize], c.use_z);
         if c.secform == 4 && !c.use_z {
             ensure_eq!(call("to_rfc3339", || dt.to_rfc3339())?, s, "to_rfc3339 == AutoSi without Z");
+            // the same rendering through the formatting item
+            use std::fmt::Write;
+            let mut a = String::new();
+            let r = call("format_with_items(Fixed::RFC3339)", || write!(a, "{}", dt.format_with_items([chrono::format::Item::Fixed(chrono::format::Fixed::RFC3339)].iter())))?;
+            ensure!(r.is_ok() && a == s, "format_with_items([Fixed::RFC3339]) = {a:?} ({r:?}), to_rfc3339 = {s:?}");
         }
         // conformance: the independent recognizer accepts it and reads the same fields
         let p = rfc3339::parse(&s).ok_or_else(|| format!("output {s:?} does not match the RFC 3339 date-time grammar"))?;
